@@ -251,6 +251,33 @@ def reactor_registry(prog, an):
                         'privileged': _const_bool(b.get('privileged')),
                         'authored': _const_bool(b.get('authored')),
                         'handler': None, 'where': f.where(call)}
+    # registrations written at module level:
+    # Reactor.add_command('reset', _reset, "...")
+    from ..program import walk_local as _wl
+    for m in prog.modules.values():
+        for call in _wl(m.tree, include_root=False):
+            if not isinstance(call, ast.Call):
+                continue
+            fn = call.func
+            if not (isinstance(fn, ast.Attribute) and
+                    fn.attr in ('add_option', 'add_command') and
+                    is_reactor(fn.value, m)):
+                continue
+            meth = add_option if fn.attr == 'add_option' else add_command
+            b = _bind(meth.params, call)
+            key = const_value(b['key'])
+            h = b.get('handler')
+            hf = prog.funcs.get(prog.resolve_expr(m, h) or '') \
+                if h is not None else None
+            rec = {'privileged': _const_bool(b.get('privileged')),
+                   'authored': _const_bool(b.get('authored')),
+                   'handler': hf,
+                   'where': '%s:%d' % (m.path, call.lineno)}
+            if fn.attr == 'add_option':
+                rec['default'] = b.get('default')
+                options[key] = rec
+            else:
+                commands[key] = rec
     for f in prog.all_funcs():
         if f.parent is not None or f.cls is not None:
             continue
